@@ -182,7 +182,7 @@ static void run_cloud(vh::Ctx & c, vh::Rng & r, const Cloud & cl)
         LD a2 = std::min((n - cl.true_normal).norm(), (n + cl.true_normal).norm());
         c.expect_le("planar.normal_is_surface_normal", a2, bound + thick + 32 * eps, "planar_normal_wrong", params, wit);
         if (o.has_curv) {
-          LD ctol = 4 * eps * L.c + (8 * eps * pmax) * (8 * eps * pmax) / L.ev.sum();
+          LD ctol = 8 * eps * L.c + (8 * eps * pmax) * (8 * eps * pmax) / L.ev.sum();
           c.expect_le("planar.curvature_zero", fabsl((LD)o.curv[i]), ctol, "planar_curvature_nonzero", params, wit);
         }
       }
@@ -260,6 +260,14 @@ static void one_case(vh::Ctx & c, uint64_t idx)
   cl.homogeneous = r.coin();
   cl.prefill = (int)r.range(0, 1);
   gen_cloud(r, cl);
+  // units: every clause of the statement is scale invariant, so the same cloud expressed in
+  // another unit (micrometres .. kilometres) is an equally valid input
+  if (r.coin(0.4)) {
+    LD unit = r.logu(1e-7, 1e3);
+    for (auto & p : cl.pts) {p *= unit;}
+    cl.dist *= unit; cl.noise *= unit;
+    c.cat(unit < 1e-3 ? "cloud_in_small_units" : "cloud_rescaled");
+  }
   std::string t = std::string(cl.homogeneous ? "Homogeneous" : "Cartesian") + (cl.dim == 2 ? "2" : "3") + (cl.is_float ? "f" : "d");
   c.cat("type_" + t);
   c.cat("cloud_" + cl.kind);
